@@ -458,6 +458,38 @@ func run(ci any, r *mon.Rec) {
 				r.Violate(c, "wrong-error-class", mon.Attrs{"client": "serial", "fc": int(c.FC), "fault": "inject+flush-error"}, fmt.Sprintf("%T %v", out.Err, out.Err))
 			}
 		}
+		// ... and where the exchange itself went well: the port fails to flush after the complete reply, after an exception
+		// reply, after a flood - an I/O failure of the port, reported as the client error that wraps THAT failure
+		if c.Client == clientx.Serial {
+			exq := specref.Resp{FC: c.FC, Unit: reply[0], Exception: true, ExCode: 2}.Encode(specref.RTU)
+			for _, fs := range []struct {
+				what string
+				s    xport.Script
+			}{
+				{"complete-reply", xport.Script{Reply: reply, Steps: xport.Cuts(L, nil, 0), Tail: "deadline", FlushErr: true}},
+				{"exception-reply", xport.Script{Reply: exq, Steps: xport.Cuts(len(exq), nil, 0), Tail: "deadline", FlushErr: true}},
+				{"flood", xport.Script{Reply: libx.RandBytes(rng, 600), Steps: []xport.ReadStep{{N: 600}}, Tail: "deadline", FlushErr: true}},
+			} {
+				out := clientx.Run(c.Client, req, fs.s, clientx.Options{ReadTimeout: rtOf(c.Client), Flusher: true})
+				r.Eval(1)
+				flushed := false
+				for _, e := range out.Events {
+					flushed = flushed || e.Op == "flush"
+				}
+				if !flushed {
+					continue // (the client did not flush on this path: nothing failed)
+				}
+				var ce *modbus.ClientError
+				txt, tp := "", false
+				if out.Err != nil {
+					tp, _ = mon.Catch(func() { txt = out.Err.Error() })
+				}
+				if out.Panic != "" || out.Err == nil || tp || !errors.As(out.Err, &ce) || !errors.Is(out.Err, xport.ErrInjected) {
+					r.Violate(c, "wrong-error-class", mon.Attrs{"client": "serial", "fc": int(c.FC), "fault": "flush-error-after-" + fs.what}, fmt.Sprintf("the port's Flush failed after a %s: want a *ClientError wrapping the flush error, got %T %q (Error() panics: %v, Do panicked: %q)", fs.what, out.Err, txt, tp, out.Panic))
+				}
+			}
+			r.Cover("fault", "flush-error-after-a-successful-read")
+		}
 	case "sequence":
 		firsts := []string{"ok", "stall", "eof", "inject", "cancel"}
 		for _, f1 := range firsts {
